@@ -1304,6 +1304,15 @@ func (fr *Frame) unop(st *State, g string, x *ssa.UnOp) *State {
 		fr.factGuard = g
 		fr.refFacts(n, x.Type(), st)
 		fr.factGuard = ""
+		if gl, ok := x.X.(*ssa.Global); ok && gl.Pkg != nil {
+			if k, ok := stableGlobalSliceLen(gl); ok {
+				// proved from the package's SSA (not assumed): the only store to this unexported package
+				// variable is its initialiser make(T, k) with constant k, its address is never taken, so
+				// every later load sees a slice of exactly that length
+				vc.assume(implies(g, eq(fmt.Sprintf("(slen_ %s)", n), vc.intLitN(k, types.Typ[types.Int]))))
+				vc.note("length of package variable %s is fixed at %d by its initialiser (single store in init, address never taken: checked over the package's SSA)", gl.Name(), k)
+			}
+		}
 		if gl, ok := x.X.(*ssa.Global); ok && gl.Pkg != nil && isErrorSentinel(gl.Pkg.Pkg.Path(), gl.Name(), x.Type()) {
 			vc.assume(implies(g, fmt.Sprintf("(not (= (ityp %s) 0))", n)))
 			vc.trust("exported error sentinels of the standard library and of dependencies (io.EOF, io.ErrUnexpectedEOF, filepath.SkipDir, os.ErrNotExist, ...) are non-nil")
@@ -2003,4 +2012,107 @@ func (vc *VC) clauseLemmas(c Clause) []string {
 		out = append(out, t)
 	}
 	return out
+}
+
+// stableGlobalSliceLen decides, over the SSA of the defining package, whether the unexported package-level
+// slice variable gl has one length for the whole run: every use of the variable in every function of the
+// package (closures included) is a load, except exactly one store, in the package initialiser, of a
+// make([]T, k) with constant k. An unexported variable cannot be named by another package and its address
+// is never taken here, so no other store exists.
+var stableLenCache = map[*ssa.Global]int64{}
+
+func stableGlobalSliceLen(gl *ssa.Global) (int64, bool) {
+	if k, ok := stableLenCache[gl]; ok {
+		return k, k >= 0
+	}
+	stableLenCache[gl] = -1
+	if gl.Object() == nil || gl.Object().Exported() {
+		return 0, false
+	}
+	if _, ok := gl.Type().(*types.Pointer).Elem().Underlying().(*types.Slice); !ok {
+		return 0, false
+	}
+	var fns []*ssa.Function
+	var add func(f *ssa.Function)
+	add = func(f *ssa.Function) {
+		fns = append(fns, f)
+		for _, a := range f.AnonFuncs {
+			add(a)
+		}
+	}
+	for _, m := range gl.Pkg.Members {
+		switch m := m.(type) {
+		case *ssa.Function:
+			add(m)
+		case *ssa.Type:
+			for _, t := range []types.Type{m.Type(), types.NewPointer(m.Type())} {
+				ms := gl.Pkg.Prog.MethodSets.MethodSet(t)
+				for i := 0; i < ms.Len(); i++ {
+					if f := gl.Pkg.Prog.MethodValue(ms.At(i)); f != nil && f.Pkg == gl.Pkg {
+						add(f)
+					}
+				}
+			}
+		}
+	}
+	stores := 0
+	var k int64 = -1
+	for _, f := range fns {
+		for _, b := range f.Blocks {
+			for _, in := range b.Instrs {
+				for _, op := range in.Operands(nil) {
+					if *op != ssa.Value(gl) {
+						continue
+					}
+					switch x := in.(type) {
+					case *ssa.UnOp:
+						if x.Op != token.MUL {
+							return 0, false
+						}
+					case *ssa.Store:
+						if x.Addr != ssa.Value(gl) || f != gl.Pkg.Func("init") {
+							return 0, false
+						}
+						switch mk := x.Val.(type) {
+						case *ssa.MakeSlice:
+							c, ok := mk.Len.(*ssa.Const)
+							if !ok || c.Value == nil {
+								return 0, false
+							}
+							k = c.Int64()
+						case *ssa.Slice:
+							// go/ssa lowers make([]T, k) with constant k to new([k]T)[:]
+							al, ok := mk.X.(*ssa.Alloc)
+							if !ok || mk.Low != nil || mk.Max != nil {
+								return 0, false
+							}
+							arr, ok := al.Type().(*types.Pointer).Elem().Underlying().(*types.Array)
+							if !ok {
+								return 0, false
+							}
+							k = arr.Len()
+							if mk.High != nil {
+								c, ok := mk.High.(*ssa.Const)
+								if !ok || c.Value == nil || c.Int64() < 0 || c.Int64() > k {
+									return 0, false
+								}
+								k = c.Int64()
+							}
+						default:
+							return 0, false
+						}
+						stores++
+					case *ssa.DebugRef:
+					default:
+						return 0, false
+					}
+				}
+			}
+		}
+	}
+	if stores != 1 || k < 0 {
+		return 0, false
+	}
+	stableLenCache[gl] = k
+	return k, true
 }
